@@ -30,6 +30,9 @@ func init() {
 							continue
 						}
 						jobs = append(jobs, j("VerifSaveLoad", strconv.Itoa(n), mode, op))
+						if n <= 3 {
+							jobs = append(jobs, j("VerifSaveLoad", strconv.Itoa(n), mode, op, "script"))
+						}
 					}
 				}
 			}
@@ -42,7 +45,7 @@ func init() {
 		Budget: map[string]time.Duration{"quick": 4 * time.Minute, "thorough": 40 * time.Minute},
 		Reach:  []string{"accepted", "rejected", "file created", "load succeeded", "registration checked"},
 		Bounds: map[string]interface{}{"file_name_bytes": "every length 0..6 (8 thorough), all 256 values per byte, for the sanitiser kernel; 0..5 (6) through save()/load() on the file-system model, plus the no-argument form",
-			"configurations": "restricted, empty-only, unrestricted; all 16 combinations of HasLoad/HasSave/LoadSaveEmptyOnly/UnrestrictedIOs for function registration"},
+			"environment": "bait files ../secret.gr, sub/x.gr, notes.txt and a directory dd.gr/ named like an allowed file; for names of 0..3 bytes also with the program running as the script sub/main.gr", "configurations": "restricted, empty-only, unrestricted; all 16 combinations of HasLoad/HasSave/LoadSaveEmptyOnly/UnrestrictedIOs for function registration"},
 		Assumptions: []string{"file-system model: a file is identified by its path string; os.Create/Open/Rename and File.Write/Close/Read, io.ReadAll are modelled (DESIGN §2.7)"},
 		Outside:     []string{"names longer than the bound", "the image.save callback (needs image encoding, not encoded; it writes the constant name grol.png)", "extension callbacks that reach the file system through code that is not encoded"},
 	})
